@@ -584,7 +584,7 @@ def kind_table():
     return t
 
 
-PROOF_MODULES = {"C01": ["Glas.Props.C01", "Glas.Props.C02Marks", "Glas.Props.C02Stuck"], "C02": ["Glas.Props.C02", "Glas.Props.C02Marks", "Glas.Props.C02La", "Glas.Props.C02Stuck"], "C03": ["Glas.Props.C03"], "C04": ["Glas.Props.C04", "Glas.Props.C04Pratt"]}
+PROOF_MODULES = {"C01": ["Glas.Props.C01", "Glas.Props.C02Marks", "Glas.Props.C02Stuck"], "C02": ["Glas.Props.C02", "Glas.Props.C02Marks", "Glas.Props.C02La", "Glas.Props.C02Stuck", "Glas.Props.C02Depth"], "C03": ["Glas.Props.C03"], "C04": ["Glas.Props.C04", "Glas.Props.C04Pratt"]}
 
 
 def run(prop, res, tier, seed):
